@@ -817,10 +817,28 @@ def sideinput_model(V, wd, tier):
 
 
 def C11(V, tier):
+    from common import read_trace, split_trace_files, validate_parallel
+    import project
     sideinput_model(V, workdir("C11m"), tier)
     rng = random.Random(seed() + 11)
-    _focused(V, tier, "C11", gen.loop_programs(rng, 40 if tier == "quick" else 400, nested=False, side=True),
-             checks=("result", "boundary"), perturb_us=300)
+    progs = gen.loop_programs(rng, 40 if tier == "quick" else 400, nested=False, side=True)
+    results, traces, jobs_by_id = _focused(V, tier, "C11", progs, checks=("result", "boundary"), perturb_us=300)
+    # T: per round and per replica, what the block that combines the loop stream with the outside stream
+    # was handed by its Start (start_out hook), against what it received from the network once
+    wd = workdir("C11t")
+    recs = []
+    for t in traces:
+        recs += list(project.side_records(read_trace(t), results))
+    files = split_trace_files(recs, wd, "side", max_events=8000)
+    viols, consumed, states, _ = validate_parallel("SideTrace", files, wd)
+    for v in viols:
+        V.add_violation(v, replay=jobs_by_id.get(v.get("job")))
+    V.coverage["states"] += states
+    V.coverage["transitions"] += states
+    V.coverage["side_rounds_checked"] = sum(1 for r in recs if r["ev"] == "out" and r["k"] == "FR")
+    V.coverage["side_items_replayed"] = sum(1 for r in recs if r["ev"] == "out" and r["k"] == "S")
+    if V.coverage["side_rounds_checked"] < 20:
+        raise ToolError("vacuous: fewer than 20 side-input rounds observed")
 
 
 def C04(V, tier):
